@@ -11,7 +11,11 @@ History of the PacketVar objects is part of the input: devices may have run befo
 offsets when a device changed its sync group"; they are ordinary cases now and must pass the oracle.
 A third kind of history is the *restart* (`restart`: the configurations of 1-2 earlier starts): the same SyncGroup object is started
 through the real `SyncGroup.start()`, runs a cycle, its terminals get other process-data sizes / FMMU use, and it is started again
-(the fast group: allocate + Python reads, then allocate + assemble); the oracle knows only the present configuration."""
+(the fast group: allocate + Python reads, then allocate + assemble); the oracle knows only the present configuration.
+Program generation is part of the history too: in a fast group the devices of `prior` were compiled before in a FastSyncGroup of
+their own, and every earlier configuration of `restart` had a FastSyncGroup object of its own over the same devices whose program
+was generated (a group object is assembled once) before the present object is built.  Terminals may be instances of one class
+(`twin`), and a variable may be reached through the very descriptor of another one on the other instance (`same`)."""
 import struct
 
 from .. import interp, progs
@@ -30,6 +34,7 @@ THEOREMS = [
     "Ebv.C19.run_agree_full", "Ebv.C19.run_agree_full_old_refuted", "Ebv.C19.run_agree_full_old_refuted_shared",
     "Ebv.C19.stale_start_old_vs_new", "Ebv.C19.shared_new_ok",
     "Ebv.C19.restart_invariant", "Ebv.C19.restart_agree", "Ebv.C19.restart_read", "Ebv.C19.restart_witness",
+    "Ebv.C19.generation_leaves_nothing", "Ebv.C19.generated_only_history", "Ebv.C19.generation_agree", "Ebv.C19.generation_witness",
     "Ebv.C19.prog_addr_in_payload", "Ebv.C19.resolve_packet", "Ebv.C19.resolve_process", "Ebv.C19.width_table",
 ]
 TRUSTED = ["hand-written model Ebv.ProcVar of PacketVar.get/set (Python path) and of the code Memory.calculate/_set emit for "
@@ -49,7 +54,10 @@ ASSUMPTIONS = ["values written are representable in the destination format (othe
                "(Device.get_terminals needs .sm) and assigning to a Struct member only shadows the descriptor: not exercised"]
 RULE = ("history: fresh objects (~65%), devices that ran before in a sync group of their own (~15%), the group object itself started "
         "once or twice before (real SyncGroup.start(); FastSyncGroup: allocate + Python reads) while its terminals had other process-data "
-        "sizes / FMMU use (~15%), a PacketVar object linked to two devices (~5%); case = 1-3 terminals (FMMU or not, random position/sizes, pdos table with byte formats and bit numbers, several variables "
+        "sizes / FMMU use (~15%; for the fast path each earlier configuration also had a FastSyncGroup object of its own whose program was "
+        "generated, and `prior` devices were compiled in a fast group of their own), a PacketVar object linked to two devices (~5%); "
+        "~20% of the configurations have a second instance of one terminal class (same PDO table, other position/sizes/FMMU use) with "
+        "1-2 variables reached through the same descriptor on both instances; case = 1-3 terminals (FMMU or not, random position/sizes, pdos table with byte formats and bit numbers, several variables "
         "sharing a byte, Struct channels with sm3/sm2/coe offsets, ProcessDesc with size override, PacketDesc) x 1-2 generated Device "
         "subclasses whose program()/update() run 1-5 statements (var=var, bit=bit, bit=const, var=const, dv=var, var=dv, bit=var, "
         "var=bit, bit=dv) x random region contents (sign-bit/all-ones biased) and Ethernet header; non-trivial = the frame changes "
@@ -329,7 +337,7 @@ def check_one(ctx, impl, case):
     except Exception as e:        # the working tree cannot build the groups / generate the program for this configuration
         impl.key = None
         ctx.require(False, "sync groups cannot be built / program cannot be generated", case, f"{type(e).__name__}: {e}", "build")
-        return "build-error", b"", {"prior": None, "slow": [], "fast": []}, True, False, sorted(opkind(case, lay, o) for o in case["ops"])
+        return "build-error", b"", {"prior": None, "slow": [], "fast": [], "generated": []}, True, False, sorted(opkind(case, lay, o) for o in case["ops"])
     # layout and offset resolution of the real objects against the independent one
     for G, nm in ((S, "slow"), (F, "fast")):
         real = {(ti, sm.value): off for ti, t in enumerate(G["terms"]) if t in G["sg"].pdo_assign
@@ -362,6 +370,11 @@ def check_one(ctx, impl, case):
             real = {(ti, sm.value): off for ti, t in enumerate(G["terms"]) if t in r["assign"] for sm, off in r["assign"][t].items()}
             ctx.require(real == el["regions"], f"{nm} group, earlier start {k}: terminal regions differ from the frame layout", case,
                         f"{real} vs {el['regions']}", "layout")
+    for g in F["generated"]:            # earlier program generations ran under the layout declared for that time
+        el = layout(earlier_case(case, g["restart"])) if "restart" in g else layout(case, case["prior"]["devs"])
+        real = {(ti, sm.value): off for ti, t in enumerate(F["terms"]) if t in g["assign"] for sm, off in g["assign"][t].items()}
+        ctx.require(real == el["regions"], "fast group, earlier program generation: terminal regions differ from the frame layout", case,
+                    f"{real} vs {el['regions']}", "layout")
     if ref is not None:
         want, wvals, own = ref
         obs = f"python={pyout if isinstance(pyout, str) else pyout.hex()} program={fastout[14:].hex()} want={want.hex()} values py={pyvals} prog={fastvals} want={wvals}"
@@ -384,7 +397,7 @@ def check_one(ctx, impl, case):
     changed = ref is not None and (ref[0] != pyframe or any(o["op"] == "get" for o in case["ops"]))
     kinds = sorted(opkind(case, lay, o) for o in case["ops"])
     return (fmt_line(real_st, [a for _, a in real_fa], pyout, pyvals, pyreads, fastout, fastvals, fastreads), pyframe,
-            {"prior": S["prior"], "slow": S["restarts"], "fast": F["restarts"]}, ref is not None, changed, kinds)
+            {"prior": S["prior"], "slow": S["restarts"], "fast": F["restarts"], "generated": F["generated"]}, ref is not None, changed, kinds)
 
 
 def opkind(case, lay, o):
@@ -425,6 +438,11 @@ def gen_config(rng):
                         off += width(f)
             sizes[sm] = off + rng.randrange(0, 3)
         terms.append({"position": positions[ti], "fmmu": rng.random() < 0.5, "in_sz": sizes[IN], "out_sz": sizes[OUT], "pdos": pdos})
+    if rng.random() < 0.2:          # a second terminal of the same type: an instance of the same class, same PDO table, elsewhere
+        k = rng.randrange(nterm)
+        free = [p for p in range(40) if p not in positions]
+        terms.append({**terms[k], "position": rng.choice(free), "fmmu": rng.random() < 0.5, "twin": k,
+                      "in_sz": terms[k]["in_sz"] + rng.choice([0, 0, 1, 2]), "out_sz": terms[k]["out_sz"] + rng.choice([0, 0, 1, 2])})
     return terms
 
 
@@ -564,6 +582,22 @@ def gen_case_config(rng):
                 x["dev"] = m[x["dev"]]
         vars_ = [v for v in vars_ if v["dev"] in m.values()]
     cfg = {"terms": terms, "vars": vars_, "dvs": dvs, "ops": ops}
+    twins = {t["twin"]: ti for ti, t in enumerate(terms) if "twin" in t}
+    twins.update({v: k for k, v in twins.items()})
+    if twins:               # the same descriptor reached on the other instance of the class, by the same or another device
+        g, w = accessed(cfg)
+        cand = [vi for vi, v in enumerate(vars_) if v["t"] in twins and vi in g | w]
+        for k in rng.sample(cand, min(len(cand), rng.randrange(1, 3))):
+            dev = rng.choice(sorted({o["dev"] for o in ops}))
+            vars_.append({**vars_[k], "t": twins[vars_[k]["t"]], "dev": dev, "same": k})
+            size = resolve(cfg, vars_[-1])[2]
+            if k in g and (k not in w or rng.random() < 0.5):
+                f = rng.choice(list(FMTS)) if isinstance(size, int) else rng.choice([x for x in FMTS if contained(size, x)])
+                dvs.append({"dev": dev, "fmt": f, "init": 0})
+                ops.append({"dev": dev, "op": "get", "dv": len(dvs) - 1, "src": len(vars_) - 1})
+            else:
+                c = rng.choice([0, 1]) if isinstance(size, int) else gen_const(rng, size)
+                ops.append({"dev": dev, "op": "set", "dst": len(vars_) - 1, "src": ["const", c]})
     r = rng.random()
     ndev = 1 + max(o["dev"] for o in ops)
     if r < 0.15:            # the devices (or one of them) ran before in a sync group of their own
@@ -655,6 +689,13 @@ def model_line(case, lay, pyframe, prior):
             el = layout(earlier_case(case, k))
             line.setdefault(key, []).append({"assign": [[el["regions"].get((v["t"], IN)), el["regions"].get((v["t"], OUT))] for v in case["vars"]],
                                              "frame": r["frame"].hex(), "ops": ops if key == "prior" else []})
+    # earlier program generations for the fast group's objects (an earlier fast group of some of the devices, earlier
+    # FastSyncGroup objects of the same devices under the configuration of that time): layout only, nothing is executed
+    for g in hist["generated"]:
+        el = layout(earlier_case(case, g["restart"])) if "restart" in g else layout(case, case["prior"]["devs"])
+        line.setdefault("gprior", []).append({"assign": [[el["regions"].get((v["t"], IN)), el["regions"].get((v["t"], OUT))]
+                                                         if v["dev"] in g["devs"] else None for v in case["vars"]],
+                                              "frame": "", "ops": []})
     return line
 
 
@@ -679,6 +720,8 @@ def run(ctx):
                         ctx.stats[f"{side}-fmt:{x.split(':')[1]}"] += 1
             ctx.stats["struct-vars"] += sum(v["struct"] is not None for v in case["vars"])
             ctx.stats["fmmu-terminals"] += sum(t["fmmu"] for t in case["terms"])
+            ctx.stats["same-class-terminals"] += sum("twin" in t for t in case["terms"])
+            ctx.stats["same-descriptor-vars"] += sum(v.get("same") is not None for v in case["vars"])
             ctx.stats["devices:%d" % (1 + max(o["dev"] for o in case["ops"]))] += 1
             cases.append(case)
             outs.append(out)
@@ -716,7 +759,9 @@ LEVEL_TEXT = ("Lean 4 proof over a hand-written model of both paths: for all fra
               "on the two former witnesses (run_agree_full_old_refuted, ..._shared; stale_start_old_vs_new, shared_new_ok). Restart: whatever "
               "history of earlier starts the objects went through (same group re-allocated under other layouts, other groups, cycles ended by "
               "exceptions, Python reads in a fast group) the present cycle is that of fresh objects and agrees with the program "
-              "(restart_invariant, restart_agree, restart_read; restart_witness = the case an accessor that survives allocate() gets wrong). Tie: three-way exact correspondence "
+              "(restart_invariant, restart_agree, restart_read; restart_witness = the case an accessor that survives allocate() gets wrong); "
+              "earlier program generations leave nothing on the objects (generation_leaves_nothing, generated_only_history, generation_agree; "
+              "generation_witness = the address kept from an earlier generation writes the byte of the old layout). Tie: three-way exact correspondence "
               "(real Python path, real bytecode re-assembled every run and interpreted, model) on random terminals / PDO maps / devices.")
 LEVEL_NOTE = ("trusted: Lean kernel + standard axioms; hand model validated by differential execution (not verified against the bytecode); "
               "interpreter semantics; unrepresentable values, bit numbers > 7, direct Struct links are outside the property")
